@@ -7,6 +7,7 @@ import Driver.C11
 import Driver.Signer
 import Driver.C18
 import Driver.C13
+import Driver.C19
 open Lean Driver
 
 def dispatch (p : String) (inp impl : Json) : CaseResult :=
@@ -19,6 +20,7 @@ def dispatch (p : String) (inp impl : Json) : CaseResult :=
   | "C02" => Signer.handleC02 inp impl
   | "C18" => C18.handle inp impl
   | "C13" => C13.handle inp impl
+  | "C19" => C19.handle inp impl
   | "C03" => Signer.handleC03 inp impl
   | _ => { model := Json.null, spec := false, why := "unknown property " ++ p }
 
